@@ -96,12 +96,13 @@ def handleInv (ins outs : List J) : Verdict :=
 /-- `rnd <kind> … => v w again` : Rand(dist)(rng) vs InvCDF(dist)(first non-zero Float64 of the same source) -/
 def handleRnd (ins outs : List J) : Verdict :=
   match ins, outs with
-  | _, [vJ, wJ, againJ] =>
-    match vJ.flt?, wJ.flt?, againJ.flt? with
-    | some v, some w, some a =>
+  | _, [vJ, wJ, againJ, nilJ] =>
+    match vJ.flt?, wJ.flt?, againJ.flt?, nilJ.nat? with
+    | some v, some w, some a, some nl =>
       verdictOf "nt rand" [("rand-is-inverse-transform", v == w, s!"Rand={v.str} InvCDF(y)={w.str}"),
-                           ("rand-deterministic", v == a, s!"first={v.str} again={a.str}")]
-    | _, _, _ => .badOp "rnd: parse"
+                           ("rand-deterministic", v == a, s!"first={v.str} again={a.str} (same seed, generator used with another source before)"),
+                           ("rand-source-is-the-argument", nl == 1, "a call with a nil source changed the draws from an explicit source")]
+    | _, _, _, _ => .badOp "rnd: parse"
   | _, _ => .badOp "rnd: arity"
 
 end MV.InvCDF
